@@ -607,7 +607,9 @@ def judge(chk, c, evs):
                 if geom.fwinding(poly, mid[0], mid[1]) == 0:
                     chk.violation('C07/bend/arc-missing', 'circular bend (radius %g) at corner %d: the arc mid point (%.6g,%.6g) is outside the outline' % (R, k, mid[0], mid[1]), rp)
                     return
-                if geom.fwinding(poly, tip[0], tip[1]) != 0 and (R + hw[k]) * (1 / math.cos(th / 2) - 1) > 0.9 * hw[k] / math.cos(th / 2) * 0 + 4 * tol + 0.1 * hw[k] / math.cos(th / 2):
+                # (the tip must not lie in the band of some other stretch of the same path that passes close to this corner)
+                tip_free = dist_centre(tip[0], tip[1], True)[0] > max(hw) + 3 * tol
+                if tip_free and geom.fwinding(poly, tip[0], tip[1]) != 0 and (R + hw[k]) * (1 / math.cos(th / 2) - 1) > 0.9 * hw[k] / math.cos(th / 2) * 0 + 4 * tol + 0.1 * hw[k] / math.cos(th / 2):
                     chk.violation('C07/bend/corner-not-rounded', 'circular bend (radius %g) at corner %d: the sharp outer corner (%.6g,%.6g) is still inside the outline' % (R, k, tip[0], tip[1]), rp)
                     return
                 chk.cov('bends_checked')
